@@ -872,6 +872,22 @@ vshim_ctor(void)
 	vshim_init();
 }
 
+/*
+ * VSHIM_OFF_AT_EXIT=1 (coverage measurement runs of tools/cov.py only): the
+ * program under test was built with --coverage and its runtime writes .gcda
+ * files from an exit-time destructor.  Registering the switch lazily, at the
+ * first interposed call made after main() started, places it in front of the
+ * dynamic linker's finaliser, so the switch runs before those destructors
+ * and their file traffic is neither traced, counted nor faulted.
+ */
+static int g_offatexit = -1;
+
+static void
+vshim_off(void)
+{
+	g_on = 0;
+}
+
 static inline int
 shim_on(void)
 {
@@ -879,6 +895,13 @@ shim_on(void)
 		if (g_state == 1)
 			return 0;
 		vshim_init();
+	}
+	if (g_offatexit == -1) {
+		const char *v = getenv("VSHIM_OFF_AT_EXIT");
+
+		g_offatexit = (v != NULL && *v == '1');
+		if (g_offatexit)
+			atexit(vshim_off);
 	}
 	return g_on;
 }
